@@ -30,7 +30,9 @@ enum Kind {
     Bad,
 }
 
-const TEXTS: [(&str, Kind); 6] = [
+const TEXTS: [(&str, Kind); 7] = [
+    // a line whose first statement executes nothing, with one that prints behind it
+    (" DATA 1: PRINT \"d\";", Kind::Good('d')),
     (" PRINT \"a\";", Kind::Good('a')),
     (" PRINT \"b\";", Kind::Good('b')),
     (" :", Kind::Silent),
@@ -77,7 +79,13 @@ fn model(hist: &[Ev]) -> BTreeMap<u64, char> {
 /// What a fresh interpreter lists after receiving only this line (differential spelling).
 fn fresh_listing(key: u64, c: char) -> String {
     let mut s = Sess::new();
-    let text = if c == ':' { format!("{} :", key) } else { format!("{} PRINT \"{}\";", key, c) };
+    let text = if c == ':' {
+        format!("{} :", key)
+    } else if c == 'd' {
+        format!("{} DATA 1: PRINT \"d\";", key)
+    } else {
+        format!("{} PRINT \"{}\";", key, c)
+    };
     let _ = s.apply(&Ev::Line(text));
     s.recs.clear();
     let _ = s.apply(&Ev::Line("LIST".into()));
